@@ -225,14 +225,26 @@ def discharge(pc, late, goal, symbols, want_cvc5_confirm=False):
         goal = z3.BoolVal(False)
     neg = z3.Not(goal)
 
+    from . import relang
+    allf = list(pc) + list(late) + [neg]
+    lem = relang.lemmas_for(allf)
+    # string variables constrained only by regex membership are abstracted exactly (equisatisfiable): z3's regex
+    # solver does not cope with Unicode-sized character classes
+    pairs, clauses, re_witness = relang.exact_abstraction(allf)
+
+    def sub(c):
+        return z3.substitute(c, *pairs) if pairs else c
+
     def ask(extra):
         s = z3.Solver()
         s.set("timeout", Z3_TIMEOUT_MS)
         for c in pc:
-            s.add(c)
+            s.add(sub(c))
         for c in extra:
-            s.add(c)
-        s.add(neg)
+            s.add(sub(c))
+        for c in lem + clauses:
+            s.add(sub(c))
+        s.add(sub(neg))
         r = s.check()
         return s, r
 
@@ -270,6 +282,8 @@ def discharge(pc, late, goal, symbols, want_cvc5_confirm=False):
             if isinstance(v, str):
                 v = _decode_z3_string(v)
             model[name] = v
+        if pairs:
+            model.update(re_witness(m))
         return {"status": REFUTED, "backend": backend, "secs": secs, "model": model, "stage": stage,
                 "smt2": s.to_smt2()[:20000]}
     if r == "sat-nomodel":
